@@ -562,7 +562,15 @@ def rule_c08_close_marks_connection(ctx):
 
 from .rules_wrappers import rules_for as _rules_for
 _fw_C08 = _rules_for("C08")
-C08_RULES = [rule_c08_readers, rule_c08_completion, rule_read_forwarding, rule_c08_close_marks_connection, _fw_C08]
+def rule_c08_head_boundary(ctx):
+    """`exactly the first N bytes following the head`: where the head ends is what the head layers report as consumed (R05.2 the
+    tokeniser's count, R05.6 the flow layer forwards it / sums it over a skipped late 100), shared with C05; F6 is owned by C05"""
+    from . import rules_parsers
+    rules_parsers.rule_c05_call_layer(ctx)
+    ctx.instances[:] = [i for i in ctx.instances if not (i.rule == "R05.1" and i.key == "partial-fallback:Some" and i.status in ("violation", "known"))]
+
+
+C08_RULES = [rule_c08_readers, rule_c08_completion, rule_read_forwarding, rule_c08_head_boundary, rule_c08_close_marks_connection, _fw_C08]
 def rule_c04_exact_min(ctx):
     """`each body write copies min(input, output space, remaining)`: the exactness half (nothing held back) is R18.5, shared"""
     from .rules_c18 import rule_sized_exact
@@ -571,4 +579,11 @@ def rule_c04_exact_min(ctx):
 
 from .rules_wrappers import rules_for as _rules_for
 _fw_C04 = _rules_for("C04")
-C04_RULES = [rule_c04_write, rule_c04_exact_min, rule_c04_direct, rule_c04_who_writes, _fw_C04]
+def rule_c04_analysis_latched(ctx):
+    """the remaining length lives in the body writer that the request analysis installs: the analysis must run once (latched on
+    every successful path), otherwise each write starts from a fresh writer -- R02.7, shared with C02"""
+    from .rules_c02 import rule_host_and_framing
+    rule_host_and_framing(ctx)
+
+
+C04_RULES = [rule_c04_write, rule_c04_exact_min, rule_c04_direct, rule_c04_who_writes, rule_c04_analysis_latched, _fw_C04]
